@@ -18,7 +18,7 @@ RULE = ("fault enumeration of response frames that pass validation: every valid 
         "state report in the same exchange (good+bad, bad+good, bad+good+bad). Oracle: nothing escapes the operation; in a mixed "
         "exchange the good frame is applied and the device is online. non-trivial = every case")
 ASSUMPTIONS = ["all frames of a mixed exchange arrive before the library resumes (same virtual instant)"]
-DRIVERS = ["refresh", "apply", "get_capabilities", "toggle_display", "start_self_clean", "refresh-props"]
+DRIVERS = ["refresh", "apply", "get_capabilities", "toggle_display", "start_self_clean", "refresh-props", "refresh-then-ops"]
 KINDS = ["state", "caps", "props", "energy", "humidity"]
 
 
@@ -159,6 +159,7 @@ def execute(frame: bytes, driver: str, mix: str):
     good_state = dict(dev_model.state)
 
     armed = {"on": driver != "refresh-props"}
+    tally = {}
 
     def script(req):
         if not armed["on"]:
@@ -192,6 +193,17 @@ def execute(frame: bytes, driver: str, mix: str):
             await ac.get_capabilities()
             armed["on"] = True
             await ac.refresh()
+        elif driver == "refresh-then-ops":
+            # whatever a bad frame left behind must not break the operations that follow (honest device from here on)
+            await ac.refresh()
+            armed["on"] = False
+            r0 = len(dev_model.rejected)
+            await ac.apply()
+            await ac.toggle_display()
+            await ac.refresh()
+            tally["rejected"] = [r[1] for r in dev_model.rejected[r0:]]
+            tally["online"] = ac.online
+            tally["diff"] = diff_view(client_view_of(dev_model.state), ac)
         elif driver == "get_capabilities":
             await ac.get_capabilities()
         elif driver == "toggle_display":
@@ -201,6 +213,7 @@ def execute(frame: bytes, driver: str, mix: str):
 
     try:
         out = rig.run(drive())
+        ac._c14_tally = tally
         return out, ac, rig.dev.ac
     finally:
         rig.close()
@@ -225,6 +238,12 @@ def run_shard(shard, tier) -> Stats:
         prob = None
         if out[0] != "ok":
             prob = f"{driver} raised {type(out[1]).__name__}"
+        elif driver == "refresh-then-ops":
+            t = ac._c14_tally
+            if t.get("rejected"):
+                prob = f"operation after a bad frame sent a command the device rejects: {t['rejected'][0]}"
+            elif not t.get("online") or t.get("diff"):
+                prob = f"operations after a bad frame do not recover: online={t.get('online')} diff={t.get('diff')}"
         elif mix != "alone" and driver in ("refresh", "apply", "refresh-props"):
             # the good state report of the same exchange must have been applied
             want = client_view_of(devmodel.state)
